@@ -598,7 +598,9 @@ class ReverseWeighting(WeightingModel):
             self.subscorer = subscorer
 
         def supports_block_quality(self):
-            return self.subscorer.supports_block_quality()
+            # The negation of an upper bound is a lower bound, not an upper
+            # bound, so no usable quality estimate exists
+            return False
 
         def score(self, matcher):
             return 0 - self.subscorer.score(matcher)
